@@ -113,6 +113,7 @@ def run(run, tier):
     from . import c14_ode
     ode = c14_ode.run_ode_part(run, tier)
     sim_part(run, EoN, tier, stats)
+    from . import c14x; stats['c14x'] = c14x.part(run, tier, props)      # proof-side extension: Props/C14x.v + extracted relabelling action on the Python right-hand sides
     if not props['ok']:
         run.violation('C14/proof', 'Props/C14.v no longer checks: %s' % props['log'][-400:], {'broken': 'coq/Props/C14.v', 'log': props['log']}, no_input=True)
     n_eval = int((ode.get('counts') or {}).get('comparisons', 0) or 0) + stats.get('sim_comparisons', 0)
